@@ -10,11 +10,16 @@ build-description clause):
   ninja-loader  theorem  LLBuild.NinjaLoader.C19_loader_total (Props/C17Load.lean); the manifest stream of
                 vlib/props/c17load.py through the real ManifestLoader (here: the ASan+UBSan build), judged only on
                 "came back and reported through the error callback" (crash / hang / no manifest)
-  yaml          NO Lean model.  Shape generator below -> well-formed YAML build descriptions -> the real
-                buildsystem::BuildFile loader under ASan+UBSan (harness/vc19yaml.cpp, modes file / system); python
-                oracle: terminates within the watchdog, no sanitizer report / signal, problems only via the error
-                callbacks (a null description always comes with at least one error callback; every error token lies
-                inside the parsed buffer).
+  yaml          Shape generator below -> well-formed YAML build descriptions -> the real buildsystem::BuildFile
+                loader under ASan+UBSan (harness/vc19yaml.cpp, modes file / system); python oracle: terminates
+                within the watchdog, no sanitizer report / signal, problems only via the error callbacks (a null
+                description always comes with at least one error callback; every error token lies inside the
+                parsed buffer).
+  yamlmodel     theorems LLBuild.BuildFileLoader.C19_yaml_* (Props/C19Yaml.lean) over the loader model
+                Model/BuildFileLoader.lean (BuildFileImpl of lib/BuildSystem/BuildFile.cpp); the same generator's
+                documents through harness mode `model` (node tree of the real YAML parser + the real load()'s complete
+                stream of delegate calls / error callbacks / result under a scripted delegate) and through the Lean
+                driver mode c19yaml; line-for-line equality.
 
 Oracle failures of the delegated passes that concern another property (keyword recognition, round trips,
 differences from Ninja's semantics) are counted (coverage.not_this_property) and left to C17 / C11."""
@@ -30,6 +35,12 @@ MAX_DEPTH_QUICK, MAX_DEPTH_THOROUGH = 2000, 20000
 
 LEX_THEOREMS = [t for t in c17lex.CHECK.theorems if ".C19_" in t]
 LOADER_THEOREMS = ["LLBuild.NinjaLoader.C19_loader_total"]
+# the build-description (YAML) loader: Props/C19Yaml.lean over Model/BuildFileLoader.lean
+YAML_THEOREMS = ["LLBuild.BuildFileLoader." + t for t in (
+    "C19_yaml_loader_total", "C19_yaml_depth_irrelevant", "C19_yaml_error_token_in_tree", "C19_yaml_no_crash",
+    "C19_yaml_null_implies_error", "C19_yaml_null_implies_error_full_false", "C19_yaml_null_implies_error_partial",
+    "C19_yaml_error_classes", "C19_yaml_recoverable_classes", "C19_yaml_section_order", "C19_yaml_unknown_key_reported",
+    "C19_yaml_duplicate_reported", "C19_yaml_duplicates_silently_accepted", "C19_yaml_delegate_protocol")]
 
 # which oracle verdicts of the delegated passes are C19 verdicts
 LEX_ORACLES = {"sanitizer", "termination", "protocol", "tile", "eof"}
@@ -497,7 +508,7 @@ def judge_yaml(mode, data, label, line):
 
 
 def corr_yaml(ctx, res):
-    """the build-description clause: shape generator -> real loader under ASan+UBSan -> oracle (no Lean model)"""
+    """the build-description clause: shape generator -> real loader under ASan+UBSan -> oracle (the Lean model of the loader is the stream `yamlmodel`)"""
     exe = ctx.exe[YAML_HARNESS]
     rng = ctx.rng
     n = 12000 if ctx.thorough else 1500
@@ -586,6 +597,183 @@ def corr_yaml(ctx, res):
 
 
 # ------------------------------------------------------------------------------------------------
+# the build-description loader against its Lean model (Model/BuildFileLoader.lean): stream `yamlmodel`
+# ------------------------------------------------------------------------------------------------
+YAMLMODEL_TREE_DEPTH_CAP = 6      # kTreeDepthCap of harness/vc19yaml.cpp: children of nodes at depth >= 6 are not printed
+YM_ITEM_NAMES = {"sb": "setFileContentsBeingParsed", "x": "error", "cc": "configureClient", "lt": "lookupTool", "ta": "Tool::configureAttribute",
+                 "mk": "Tool::createCommand", "cn": "createNode", "ci": "Command::configureInputs", "co": "Command::configureOutputs",
+                 "cd": "Command::configureDescription", "ca": "Command::configureAttribute", "tg": "loadedTarget", "dt": "loadedDefaultTarget",
+                 "lc": "loadedCommand", "mp": "cannotLoadDueToMultipleProducers"}
+
+
+# hand-written documents that reach the error classes the generator rarely produces (every class of Model/BuildFileLoader.lean `Msg`
+# that a well-formed document can reach is seen on every run)
+YM_DIRECTED = [
+    (b"client: {name: vclient}\ntools: {vtool: {optmap: {[a]: b, c: [d], e: f}, opts: [x, [y], {z: w}], ? [k] : v, opt: *al, opt: x}}\n", "attr-map-kinds"),
+    (b"client: {name: vclient}\nnodes: {n: {x: {[a]: b, c: [d], e: f}, content-exclusion-patterns: [x, [y]], ? [k] : v, type: *al, is-virtual: true}, <v>: {type: bogus}}\n", "attr-map-kinds"),
+    (b"client: {name: vclient}\ncommands: {c: {tool: shell, env: {[a]: b, c: [d], e: f}, args: [x, [y]], ? [k] : v, deps: *al, inputs: [a, [b]], outputs: {a: b}, description: [d]}}\n", "attr-map-kinds"),
+    (b"client: {name: vclient}\ncommands:\n  c:\n    tool: shell\n    args: |\n      echo\n    description: >\n      folded\n", "block-scalar"),
+    (b"client: {name: vclient, version: 4294967295, version: 4294967296, version: 00, version: 0x0, version: \"\", version: -0}\n", "client-problem"),
+    (b"client: {name: vclient, perform-ownership-analysis: yes}\ncommands:\n  A: {tool: shell, outputs: [f, f/x], repair-via-ownership-analysis: true}\n  B: {tool: shell, outputs: [f], repair-via-ownership-analysis: true}\n", "ownership-analysis"),
+    (b"client: {name: vclient, perform-ownership-analysis: yes}\ncommands:\n  A: {tool: mkdir, outputs: [d/], repair-via-ownership-analysis: true}\n  B: {tool: shell, outputs: [d/x, <v>/y], repair-via-ownership-analysis: true}\n  C: {tool: shell, outputs: [<v>], repair-via-ownership-analysis: true}\n", "ownership-analysis"),
+    (b"client: {name: vclient}\ntargets: {t: [a, [b], {c: d}, ~, *al], [k]: [x], u: x}\ndefault: t\nnodes: {a: x, [k]: {}}\n", "wrong-kind"),
+    (b"client: {name: vclient}\ncommands: {c: {tool: [x]}, d: {tool: mkdir, x: y}, e: {tool: archive}}\n", "wrong-kind"),
+    (b"client: {name: vclient}\ntools: {symlink: {}, symlink: {opt: a}}\ncommands: {c: {tool: symlink}, c: {tool: symlink}, d: x, [e]: {}}\n", "duplicate-key"),
+]
+
+
+def ym_model_line(salt, hline):
+    """harness line `T <tree> | O <order> | wf=. | X ...` -> (op line for the Lean driver or None, expected output, wf)"""
+    parts = hline.split(" | ")
+    if len(parts) != 4 or not parts[0].startswith("T ") or not parts[1].startswith("O ") or not parts[3].startswith("X"):
+        return None, None, None
+    return "%d %s %s" % (salt, parts[1][2:], parts[0][2:]), parts[3], parts[2] == "wf=1"
+
+
+def ym_error_class(msg):
+    """the message with the names taken from the document elided"""
+    msg = re.sub(r"^invalid tool \(.*\) type in", "invalid tool (_) type in", msg, flags=re.S)
+    msg = re.sub(r"type for '.*' in '(tools|nodes|commands)' map$", r"type for '_' in '\1' map", msg, flags=re.S)
+    msg = re.sub(r"^(unexpected attribute: |invalid value for attribute: )'.*'$", r"\1'_'", msg, flags=re.S)
+    msg = re.sub(r"^invalid value: '.*' for attribute '.*'$", "invalid value: '_' for attribute '_'", msg, flags=re.S)
+    return msg[:90]
+
+
+def ym_classify(expected, dist):
+    """per-call and per-error-class counts of one real trace"""
+    for item in expected.split(" ")[1:]:
+        f = item.split(":")
+        if f[0].startswith("r="):
+            r = "description" if f[0] == "r=desc" else f[0][2:]
+            dist["results"][r] = dist["results"].get(r, 0) + 1
+            continue
+        name = YM_ITEM_NAMES.get(f[0], f[0])
+        if f[0] in ("cc", "lt", "ta", "mk", "ca") and f[-1] == "0":
+            name += " -> false/null"
+        dist["calls"][name] = dist["calls"].get(name, 0) + 1
+        if f[0] == "x":
+            msg = ym_error_class(C.unhex(f[1]).decode("latin-1") if f[1] != "-" else "")
+            dist["error_classes"][msg] = dist["error_classes"].get(msg, 0) + 1
+
+
+def corr_yamlmodel(ctx, res, only=None):
+    """shape generator -> (a) the node tree of the real llvm YAML parser and (b) the real loader's complete stream of delegate
+    calls + error callbacks + result under a scripted delegate (harness mode `model`, ASan+UBSan); (a) goes to the Lean loader
+    model (driver mode c19yaml), whose prediction must equal (b) line for line"""
+    exe = ctx.exe[YAML_HARNESS]
+    rng = C.Rng(ctx.seed, "C19/yamlmodel")
+    n = 6000 if ctx.thorough else 900
+    max_depth = MAX_DEPTH_THOROUGH if ctx.thorough else MAX_DEPTH_QUICK
+    dist = {"shapes": {}, "error_classes": {}, "calls": {}, "results": {}, "forced_failures": {"none": 0, "reporting": 0, "silent": 0},
+            "skipped": {"not_well_formed_for_the_vendored_parser": 0, "more_than_16_outputs_with_ownership_analysis": 0}}
+    cases = []        # (salt, data, label)
+    if only is not None:
+        cases = [only]
+    else:
+        cases.append((0, None, "unreadable-file"))
+        for mode in ("file", "system"):
+            gen = Shapes(rng, mode, max_depth)
+            docs = [(d, l) for d, l in DIRECTED + YM_DIRECTED] + [gen.case(i)[:2] for i in range(n)]
+            for d, l in docs:
+                cases.append((0, d, l))
+                # the same document with the k-th answerable delegate call forced to fail (reporting / silently)
+                if rng.chance(1, 2):
+                    cases.append((2 * (1 + rng.below(24)) + rng.below(2), d, l))
+    lines = ["%d %s" % (s, "nofile" if d is None else C.hexs(d)) for s, d, _ in cases]
+    hout, restarts = c11.run_attributed([exe, "model"], lines, watchdog=600)
+    dead = [i for i, line in enumerate(hout) if line.startswith(("ABORT", "HANG"))]
+    wf_of = {}
+    if dead:
+        wout, _ = c11.run_attributed([exe, "wf"], [lines[i].split(" ")[1] for i in dead], watchdog=300)
+        wf_of = {i: w for i, w in zip(dead, wout)}
+    mlines, midx = [], []
+    for i, ((salt, data, label), hline) in enumerate(zip(cases, hout)):
+        inp = {"salt": salt, "hex": None if data is None else C.hexs(data), "text": None if data is None else data[:600].decode("latin-1")}
+        if i in wf_of:
+            if wf_of[i] == "wf=0":
+                dist["skipped"]["not_well_formed_for_the_vendored_parser"] += 1
+            else:
+                res.oracle_failures.append({"c19_stream": "yamlmodel", "parser": "yaml", "mode": "model", "shape": label, "input": inp,
+                                            "kind": "hang" if hline.startswith("HANG") else "sanitizer-abort", "report": hline[:400],
+                                            "what": "the build-description loader (scripted delegate) died on a well-formed %d-byte document (%s): %s" % (len(data or b""), label, hline[:300])})
+            continue
+        ml, expected, wf = ym_model_line(salt, hline)
+        if ml is None:
+            res.mismatches.append({"stream": "yamlmodel", "input": inp, "model": None, "impl": "unparsable harness line: " + hline[:300]})
+            continue
+        if not wf:
+            dist["skipped"]["not_well_formed_for_the_vendored_parser"] += 1
+            if only is None:
+                C.log("c19 yamlmodel generator: the vendored parser rejects a generated document (%s): %r" % (label, (data or b"")[:200]))
+            continue
+        mlines.append(ml)
+        midx.append((i, expected, inp))
+    rc, mout, merr = C.run_lines([C.model_exe(), "c19yaml"], mlines)
+    if rc != 0 or len(mout) != len(mlines):
+        res.mismatches.append({"stream": "yamlmodel", "input": "the model driver failed (rc=%s, %d of %d lines)" % (rc, len(mout), len(mlines)), "model": merr[:400], "impl": None})
+        mout = mout + ["<no output>"] * (len(mlines) - len(mout))
+    nontriv = set()
+    for (i, expected, inp), got in zip(midx, mout):
+        salt, data, label = cases[i]
+        if got == "skip unmodelled-sort":
+            dist["skipped"]["more_than_16_outputs_with_ownership_analysis"] += 1
+            continue
+        res.evaluations += 1
+        shape = label.split("+")[0]
+        dist["shapes"][shape] = dist["shapes"].get(shape, 0) + 1
+        dist["forced_failures"]["none" if salt == 0 else "silent" if salt & 1 else "reporting"] += 1
+        ym_classify(expected, dist)
+        if got != expected:
+            res.mismatches.append({"stream": "yamlmodel", "input": inp, "model": got[:2000], "impl": expected[:2000], "shape": label})
+            if len(res.mismatches) <= 3:
+                C.log("c19 yamlmodel MISMATCH (%s, salt %d): %r\n  impl : %s\n  model: %s" % (label, salt, (data or b"")[:300], expected[:600], got[:600]))
+        else:
+            nontriv.add(re.sub(r":[0-9a-f-]{2,}", ":_", expected)[:400])
+            if len(res.samples) < 2 and " x:" in expected and label not in ("valid",):
+                res.samples.append({"yaml": (data or b"")[:300].decode("latin-1"), "salt": salt, "shape": label, "trace (model = real loader)": expected[:500]})
+    res.distinct_nontrivial += len(nontriv)
+    if only is None:
+        # Observation O55 (notes/C19YAML.md; not a violation of the property): the witness of C19_yaml_null_implies_error_full_false on an
+        # IN-TREE tool.  A tool defined through the public C API (CAPITool, products/libllbuild/BuildSystem-C-API.cpp) answers false to every
+        # configureAttribute without calling ctx.error, so BuildFile::load() itself reports nothing; its caller still reports the generic
+        # "unable to load build file" through the client's error callback, which is what the property asks for.  Counted in the evidence;
+        # REQUIRED here: a description that fails to load through the C API delivers at least one diagnostic to the client.
+        cdocs = [b"client: {name: basic}\ntools: {ctool: {}}\n", b"client: {name: basic}\ntools: {ctool: {anything: 1}}\n",
+                 b"client: {name: basic}\ntools: {ctool: {opts: [a, b]}}\n", b"client: {name: basic}\ntools: {ctool: {m: {a: b}}}\n"]
+        cout, _ = c11.run_attributed([exe, "capi"], [C.hexs(x) for x in cdocs], watchdog=60)
+        obs = {"documents": len(cdocs), "loaded": 0, "rejected_with_a_specific_diagnostic": 0, "rejected_with_only_unable_to_load_build_file": 0}
+        for x, line in zip(cdocs, cout):
+            f = dict(kv.split("=", 1) for kv in line.split(" ")) if line.startswith("init=") else None
+            if f is None:
+                res.oracle_failures.append({"c19_stream": "yamlmodel", "parser": "yaml", "mode": "capi", "kind": "sanitizer-abort", "report": line[:300],
+                                            "input": {"hex": C.hexs(x), "text": x.decode("latin-1")}, "what": "the loader behind the C API died: " + line[:200]})
+                continue
+            res.evaluations += 1
+            diags = [] if f["diags"] == "." else [C.unhex(h).decode("latin-1") for h in f["diags"].split(",")]
+            if f["init"] == "1":
+                obs["loaded"] += 1
+            elif [m for m in diags if m != "unable to load build file"]:
+                obs["rejected_with_a_specific_diagnostic"] += 1
+            else:
+                obs["rejected_with_only_unable_to_load_build_file"] += 1
+            if f["init"] != "1" and not diags:
+                res.oracle_failures.append({"c19_stream": "yamlmodel", "parser": "yaml", "mode": "capi", "kind": "silent-failure", "capi_tool_attribute": True,
+                                            "input": {"hex": C.hexs(x), "text": x.decode("latin-1")},
+                                            "what": "a build description failed to load through the C API and the client received no diagnostic at all"})
+        dist["capi_client_tool_attribute_O55"] = obs
+    res.distribution.update(dist)
+    res.distribution["tree_depth_cap"] = YAMLMODEL_TREE_DEPTH_CAP
+    res.distribution["max_nesting_depth_of_documents"] = max_depth
+    res.distribution["harness_restarts"] = restarts
+    res.rule = ("the documents of the shape generator above (both tool vocabularies; all shapes incl. nesting to depth %d) plus the hand-written ones and an unreadable "
+                "file; about half of them a second time with the k-th answerable delegate call (k <= 24) forced to fail, reporting or silently.  Harness mode `model` "
+                "prints the node tree of the real llvm YAML parser (every node with its source range; children below depth %d are not printed: the loader never "
+                "looks below depth 4, theorem C19_yaml_depth_irrelevant) and the real BuildFile::load()'s complete stream of delegate calls, error callbacks "
+                "(message, token offset+length) and the resulting description under a scripted delegate (ASan+UBSan); the Lean loader model run on the printed tree "
+                "with the same scripted answers must print the same line.  Non-trivial = distinct traces with names elided." % (max_depth, YAMLMODEL_TREE_DEPTH_CAP))
+
+
+# ------------------------------------------------------------------------------------------------
 # the Ninja manifest loader: c17load's stream on the ASan build, judged on termination only
 # ------------------------------------------------------------------------------------------------
 class LoaderCtx:
@@ -620,8 +808,8 @@ def tagged(sub, stream):
 
 class Check(PropertyCheck):
     prop = "C19"
-    module = "LLBuild.Props.C19"
-    theorems = LEX_THEOREMS + c11.C19_DEPS_THEOREMS + LOADER_THEOREMS
+    module = "LLBuild.Props.C19All"
+    theorems = LEX_THEOREMS + c11.C19_DEPS_THEOREMS + LOADER_THEOREMS + c17load.PARSER_C19_THEOREMS + YAML_THEOREMS
     extractors = ["x_ninjalexer", "x_depsparsers", "x_ninjaloader"]
     impl_cfgs = ["asan"]
     harnesses = [c17lex.HARNESS, (c11.HARNESS, "asan"), LOADER_ASAN, YAML_HARNESS]
@@ -632,9 +820,16 @@ class Check(PropertyCheck):
         "(valid files, every prefix, mutations, exhaustive small strings) under ASan+UBSan; guards and operators touched by F11/F12/F18 are extracted",
         "[ninja-loader] C19_loader_total is stated at lookupNamed, the only non-structural recursion of the loader model besides include nesting; include cycles "
         "are outside the generator (a self-including manifest overflows the stack in llbuild and in ninja alike: recorded observation O3 of notes/C17LOAD.md); "
-        "lib/Ninja/Parser.cpp has no Lean model of its own: it runs under ASan+UBSan in every case of the lexer-independent loader stream and of C17",
-        "[yaml] the build-description loader (lib/BuildSystem/BuildFile.cpp and the attribute parsers of the built-in tools) has NO Lean model: this clause is "
-        "decided only by the python oracle on the real code under ASan+UBSan over the shape generator's documents (modelled-only-by-oracle clause)",
+        "lib/Ninja/Parser.cpp has a Lean model (Model/NinjaParser.lean, driving the lexer model; theorems LLBuild.NinjaParser.C19_*): it is compared with the real "
+        "Parser (complete callback trace, on exact-size heap buffers under ASan+UBSan) on the `parser` stream of c17load (valid, malformed, byte-mutated manifests, token soup)",
+        "[yaml] the build-description loader BuildFileImpl (lib/BuildSystem/BuildFile.cpp) has a hand model (Model/BuildFileLoader.lean: input = the node tree the "
+        "YAML parser built, output = the complete stream of delegate calls / error callbacks / result; every delegate answer a parameter; theorems "
+        "LLBuild.BuildFileLoader.C19_yaml_*), tied to the code by the `yamlmodel` stream (harness mode `model`: the tree printed by a separate run of the real parser, "
+        "the real load() under a scripted delegate with ASan+UBSan; line-for-line equality).  Not modelled: the attribute parsers of the built-in tools "
+        "(lib/BuildSystem/BuildSystem.cpp, ShellCommand.cpp, ... - they only appear as delegate answers; exercised by the `yaml` stream in mode system), the two "
+        "repair passes of OwnershipAnalysis (they change no control flow), std::sort beyond 16 elements (modelled as a stable sort; such inputs are skipped and counted)",
+        "[yaml] C19_yaml_null_implies_error needs the discipline 'configureAttribute returns false only after ctx.error' of the delegate's tools / nodes / commands (the "
+        "loader itself reports nothing after such a false: C19_yaml_null_implies_error_full_false); the in-tree tools follow it on every document of the `yaml` stream",
         "[yaml] the vendored LLVM YAML parser (lib/llvm/Support/YAMLParser.cpp) is trusted: documents are well-formed by construction (the harness reports whether "
         "the parser accepted the whole stream; rejected ones are counted, judged on crash / hang only); nesting depth is bounded by %d (quick) / %d (thorough) "
         "because the parser's recursive Node::skip overflows an 8 MiB stack near depth 100000; syntax errors are printed by the parser on stderr, not through the "
@@ -644,8 +839,10 @@ class Check(PropertyCheck):
         "returned together with error callbacks (counted in yaml_outcomes.loaded_with_recoverable_errors); clients decide on the error count",
     ]
     trusted_base = ["extractors x_ninjalexer, x_depsparsers, x_ninjaloader",
-                    "harnesses vc17lex (lex), vc11 (makedeps, depinfo), vc17load (c17decls, c17load), vc19yaml (file, system), all built with ASan+UBSan (clang-14)",
+                    "harnesses vc17lex (lex), vc11 (makedeps, depinfo), vc17load (c17decls, c17load), vc19yaml (file, system, model), all built with ASan+UBSan (clang-14)",
                     "python oracles check_tokens (c17lex), corr_makedeps / corr_depinfo (c11), the crash verdict of c17load, judge_yaml (this module)",
+                    "the scripted delegate of vc19yaml mode `model` and its replica in lean/LLBuild/Drv/C19Yaml.lean (incl. BuildNode::configureAttribute and the "
+                    "StringMap iteration order handed from the harness to the model); the tree printer of that mode (a second run of the deterministic YAML parser)",
                     "vendored LLVM YAML parser; AddressSanitizer / UndefinedBehaviorSanitizer as the detectors of out-of-bounds reads",
                     "watchdogs: alarm(20) per input in vc17load / vc19yaml, 120 s / 600 s per batch in run_attributed"]
 
@@ -664,6 +861,10 @@ class Check(PropertyCheck):
             if g:
                 sub.oracle_failures.append(g)
             sub.evaluations += 1
+        elif stream == "yamlmodel":
+            data = None if inp.get("hex") is None else C.unhex(inp["hex"])
+            corr_yamlmodel(ctx, sub, only=(int(inp.get("salt", 0)), data, f.get("shape", "replay")))
+            C.log("replay yamlmodel (salt %s): %r -> %d mismatch(es), %d oracle failure(s)" % (inp.get("salt"), (data or b"")[:300], len(sub.mismatches), len(sub.oracle_failures)))
         elif stream == "ninja-lexer":
             c17lex.CHECK.replay(ctx, sub, ctx.replay_path)
         elif stream in ("makedeps", "depinfo"):
@@ -682,8 +883,11 @@ class Check(PropertyCheck):
         ysub = Result()
         yerr = []
 
+        ymsub = Result()
+
         def yaml_thread():
             try:
+                corr_yamlmodel(ctx, ymsub)
                 corr_yaml(YCtx(ctx), ysub)
             except Exception as e:          # reported below as a broken tie
                 import traceback
@@ -704,12 +908,13 @@ class Check(PropertyCheck):
             absorb(res, tagged(sub, tag), tag, keep=lambda f: f.get("kind") in DEPS_KINDS)
         sub = Result()
         corr_loader(ctx, sub)
-        absorb(res, tagged(sub, "ninja-loader"), "ninja-loader", keep=lambda f: f.get("kind") == "crash")
+        absorb(res, tagged(sub, "ninja-loader"), "ninja-loader", keep=lambda f: f.get("kind") in ("crash", "parser-protocol"))
         th.join()
         if yerr:
             res.mismatches.append({"stream": "c19yaml", "input": "the YAML pass raised", "impl": yerr[0]})
         absorb(res, ysub, "yaml")
-        interleave_samples(res, ["yaml", "ninja-lexer", "makedeps", "depinfo", "ninja-loader"])
+        absorb(res, ymsub, "yamlmodel")
+        interleave_samples(res, ["yaml", "yamlmodel","ninja-lexer", "makedeps", "depinfo", "ninja-loader"])
         res.exhaustive = False
 
     def match_known(self, failure, known):
